@@ -116,7 +116,7 @@ class FaultEngine(hist.Engine):
             if kind in ("evo_aspirate", "evo_dispense"):
                 # per-tip volume list with the k-th entry above the worklist's max_volume
                 op = self.gen_evo(kind)
-                n = len(op["wells"])
+                n = len(flat_f(dec(op["wells"])))
                 vols = flat_f(dec(op["vol"]))
                 vols = [float(v) for v in (vols * n if len(vols) == 1 else vols)]
                 k = rng.randrange(n)
